@@ -47,14 +47,20 @@ def fault_libcst(kind: int, dry_run: bool, r1: bool, c1: bool, a1: bool, r2: boo
 
 
 def fault_regex(kind: int, dry_run: bool, matches: bool, sast: bool, nf: int, line: int) -> bool:
-    """Regex / SastRegex pipelines: an undecodable or vanished file is not written, is listed as failed with its
-    findings unfixed, and no exception escapes.
-    pre: 0 <= kind < 3 and 0 <= nf <= 2 and 1 <= line <= 3
+    """Regex / SastRegex pipelines: an undecodable or vanished file, or one on which the (plug-in) substitution step
+    raises, is not written, is listed as failed with its findings unfixed, and no exception escapes.
+    pre: 0 <= kind < 4 and 0 <= nf <= 2 and 1 <= line <= 3
     post: _
     """
     fp, fc, o = skel.run_regex(kind, dry_run, matches, sast, nf, line)
     if o.exc is not None:
         return False
+    if kind == 3:
+        # a transformer (plug-in) whose substitution step raises: if it was reached, the file failed like any other
+        if not o.failures:
+            return fin(o.writes == [] and o.cs is None)
+        ok = o.writes == [] and o.other == [] and o.cs is None and o.failures == ["/d/f.txt"]
+        return fin(ok and sorted(set(u[0] for u in o.unfixed)) == ["F%d" % i for i in range(nf)])
     if kind != 0:
         ok = o.writes == [] and o.other == [] and o.cs is None and o.failures == ["/d/f.txt"]
         ok = ok and sorted(u[0] for u in o.unfixed) == ["F%d" % i for i in range(nf)]
